@@ -75,15 +75,148 @@ static std::string qstr(const Q &q)
     return s;
 }
 
+
+// ------------------------------------------------------------------ number keys
+// Expected semantics of a map that contains *number* keys next to symbol keys (XReplaceVisitor, unmodified library):
+// a number is replaced wherever the visitor hands a stored number field to `apply` / `subs_dict_.find`:
+//   Add   the constant term; the coefficient of every term - including the implicit 1 - unless the whole term
+//         `coef*key` is itself a key (for a bare symbol term with coefficient 1: the symbol is a key)
+//   Mul   the coefficient (including the implicit 1); the exponent of an entry unless it is the implicit 1
+//   Pow   base and exponent;   functions: every argument;   a number standing alone
+// and the *key* of an Add term / the base of a power is substituted as usual (that is what a dropped `apply`
+// loses).  Images are not substituted again (simultaneous substitution): they are evaluated at rho.
+// EvNum evaluates the recipe e under exactly this reading, independently of the library's subs.
+template <class S>
+struct EvNum {
+    typedef std::map<std::string, S> Env;
+    typedef Ops<S> O;
+    const Env &envE;    // rho o sigma for the symbols of e
+    const Env &envI;    // rho, for the images
+    const Pairs &nums;  // number key -> image
+    const Pairs &syms;  // symbol key -> image
+    EvNum(const Env &e, const Env &i, const Pairs &n, const Pairs &sy) : envE(e), envI(i), nums(n), syms(sy) {}
+
+    const B *image_of(const Basic &b) const
+    {
+        if (!is_a_Number(b))
+            return nullptr;
+        for (const auto &p : nums)
+            if (eq(*p.first, b))
+                return &p.second;
+        return nullptr;
+    }
+    bool is_symbol_key(const Basic &b) const
+    {
+        if (!is_a<Symbol>(b))
+            return false;
+        for (const auto &p : syms)
+            if (eq(*p.first, b))
+                return true;
+        return false;
+    }
+    S image_value(const B &img) const { return Ev<S, 0>::eval(*img, envI); }
+    // a stored number field that goes through apply()
+    S num_field(const Basic &b) const
+    {
+        const B *img = image_of(b);
+        return img ? image_value(*img) : Ev<S, 0>::eval(b, envE);
+    }
+    // base ** exponent where the exponent field goes through apply()
+    S power(const Basic &base, const Basic &ex) const
+    {
+        const B *img = image_of(ex);
+        const Basic &e2 = img ? **img : ex;
+        if (is_a<Integer>(e2)) {
+            const integer_class &n = down_cast<const Integer &>(e2).as_integer_class();
+            if (!mp_fits_slong_p(n) || mp_get_si(n) > 4096 || mp_get_si(n) < -4096)
+                throw Unsup("huge-exponent");
+            return ipow(eval(base), mp_get_si(n));
+        }
+        if (is_a<Rational>(e2))
+            return O::powq(eval(base), down_cast<const Rational &>(e2).as_rational_class());
+        S ev = img ? image_value(*img) : eval(ex);
+        if (is_a<Constant>(base) && down_cast<const Constant &>(base).get_name() == "E")
+            return O::fn1(F_EXP, ev);
+        return O::powg(eval(base), ev);
+    }
+    S eval(const Basic &b) const
+    {
+        if (is_a_Number(b))
+            return num_field(b);
+        switch (b.get_type_code()) {
+            case SYMENGINE_SYMBOL:
+            case SYMENGINE_CONSTANT: return Ev<S, 0>::eval(b, envE);
+            case SYMENGINE_ADD: {
+                const Add &a = down_cast<const Add &>(b);
+                S s = num_field(*a.get_coef());
+                for (const auto &p : a.get_dict()) {
+                    if (eq(*p.second, *one) && is_symbol_key(*p.first))
+                        s = s + eval(*p.first); // the whole term is a key: its coefficient is not looked up
+                    else
+                        s = s + num_field(*p.second) * eval(*p.first);
+                }
+                O::guard(s);
+                return s;
+            }
+            case SYMENGINE_MUL: {
+                const Mul &m = down_cast<const Mul &>(b);
+                S s = num_field(*m.get_coef());
+                for (const auto &p : m.get_dict()) {
+                    if (eq(*p.second, *one))
+                        s = s * eval(*p.first);
+                    else
+                        s = s * power(*p.first, *p.second);
+                }
+                O::guard(s);
+                return s;
+            }
+            case SYMENGINE_POW: {
+                const Pow &p = down_cast<const Pow &>(b);
+                return power(*p.get_base(), *p.get_exp());
+            }
+            case SYMENGINE_FUNCTIONSYMBOL: {
+                std::vector<S> a;
+                for (const auto &x : b.get_args())
+                    a.push_back(eval(*x));
+                S r = fbody<S>(down_cast<const FunctionSymbol &>(b).get_name(), a);
+                O::guard(r);
+                return r;
+            }
+            default: break;
+        }
+        Fid f = fid_of(b.get_type_code());
+        if (f == F_NONE)
+            throw Unsup("node:" + type_code_name(b.get_type_code()));
+        vec_basic args = b.get_args();
+        if (is_fn2(f)) {
+            if (args.size() != 2)
+                throw Unsup("arity");
+            return O::fn2(f, eval(*args[0]), eval(*args[1]));
+        }
+        if (args.size() != 1)
+            throw Unsup("arity");
+        return O::fn1(f, eval(*args[0]));
+    }
+};
+
+static const Pairs *g_numkeys = nullptr; // non-null: sigma contains number keys (eval_pair uses EvNum)
+
 // value of e at rho o sigma, value of R at rho
 template <class S>
 static void eval_pair(const Basic &e, const Pairs &sigma, const Basic &R, const std::map<std::string, S> &env, S &want,
                       S &got)
 {
     std::map<std::string, S> env2 = env;
+    Pairs syms;
     for (const auto &p : sigma)
-        env2[down_cast<const Symbol &>(*p.first).get_name()] = Ev<S, 0>::eval(*p.second, env);
-    want = Ev<S, 0>::eval(e, env2);
+        if (is_a<Symbol>(*p.first)) {
+            env2[down_cast<const Symbol &>(*p.first).get_name()] = Ev<S, 0>::eval(*p.second, env);
+            syms.push_back(p);
+        }
+    if (g_numkeys)
+        want = EvNum<S>(env2, env, *g_numkeys, syms).eval(e);
+    else
+        want = Ev<S, 0>::eval(e, env2);
     got = Ev<S, 0>::eval(R, env);
 }
 
@@ -323,6 +456,41 @@ std::string hx_run(const std::string &line, std::string &oracle)
             return out;
         }
     }
+    // number keys (Integer / Rational) next to symbol keys, derivative-free e: the four entry points must agree and the
+    // result must have the value of the recipe read as described at EvNum
+    bool numsym = !symkeys;
+    Pairs numkeys;
+    for (const auto &p : sigma) {
+        if (is_a<Integer>(*p.first) || is_a<Rational>(*p.first))
+            numkeys.push_back(p);
+        else if (!is_a<Symbol>(*p.first))
+            numsym = false;
+    }
+    if (numsym && !numkeys.empty() && !binder) {
+        stat("number_key_cases");
+        static const char *all[] = {"subs", "xreplace", "msubs", "ssubs"};
+        for (const char *o : all) {
+            if (mode == o)
+                continue;
+            B r2;
+            std::string e2 = run_catch(o, e, m, cache, r2);
+            if (!e2.empty() || !eq(*r2, *R)) {
+                oracle = std::string("FAIL:modes:") + o + " gives " + (e2.empty() ? vsexp::dump(r2) : e2);
+                return out;
+            }
+        }
+        g_numkeys = &numkeys;
+        try {
+            value_oracle(e, sigma, R, line, oracle);
+        } catch (...) {
+            g_numkeys = nullptr;
+            throw;
+        }
+        g_numkeys = nullptr;
+        if (oracle != "ok" && oracle.compare(0, 11, "FAIL:value-") == 0)
+            oracle = "FAIL:numkey-" + oracle.substr(5);
+        return out;
+    }
     if (!symkeys) {
         stat("expression_key_cases");
         // every image is a distinct symbol that occurs neither in e nor in a key: give it the value of its key;
@@ -440,6 +608,37 @@ static B image(G &g, int kind, int kinds)
     }
 }
 
+
+// Integer / Rational numbers in the stored fields that XReplaceVisitor hands to apply()/find()
+static void collect_numbers(const Basic &b, vec_basic &out)
+{
+    if (is_a<Integer>(b) || is_a<Rational>(b)) {
+        out.push_back(b.rcp_from_this());
+        return;
+    }
+    if (is_a<Add>(b)) {
+        const Add &a = down_cast<const Add &>(b);
+        collect_numbers(*a.get_coef(), out);
+        for (const auto &p : a.get_dict()) {
+            collect_numbers(*p.second, out);
+            collect_numbers(*p.first, out);
+        }
+        return;
+    }
+    if (is_a<Mul>(b)) {
+        const Mul &m = down_cast<const Mul &>(b);
+        collect_numbers(*m.get_coef(), out);
+        for (const auto &p : m.get_dict()) {
+            collect_numbers(*p.first, out);
+            if (!eq(*p.second, *one))
+                collect_numbers(*p.second, out);
+        }
+        return;
+    }
+    for (const auto &a : b.get_args())
+        collect_numbers(*a, out);
+}
+
 static const char *MODES[] = {"subs", "xreplace", "msubs", "ssubs"};
 
 void hx_gen(Rng &rng, const std::string &tier)
@@ -546,6 +745,48 @@ void hx_gen(Rng &rng, const std::string &tier)
             Pairs sigma;
             sigma.push_back(std::make_pair(key, g.r.coin(2, 3) ? B(symbol("w")) : image(g, 1 + (int)g.r.below(2), 0)));
             emit_subs(g, MODES[g.r.below(10) < 6 ? 0 : 1 + g.r.below(3)], e, sigma, "exprkey/pow");
+        } catch (const std::exception &) {
+            stat("gen_exception");
+        }
+    }
+    // number keys (a coefficient of an Add term, the constant, a Mul coefficient, an exponent, a function argument)
+    // together with symbol keys
+    for (int i = 0; i < 80 * scale; i++) {
+        try {
+            unsigned fam = (unsigned)g.r.below(4);
+            int kinds = fam == 0 ? 0 : fam == 1 ? K_ELEM : fam == 2 ? (K_ELEM | K_RAD) : (K_ELEM | K_FSYM);
+            B e;
+            if (g.r.coin(1, 3)) {
+                // a sum with explicit numeric coefficients on terms that contain the symbols
+                vec_basic ts;
+                int n = 2 + (int)g.r.below(3);
+                for (int k = 0; k < n; k++)
+                    ts.push_back(mul(gnum(g), kinds ? gexpr(g, 1, kinds) : grat(g, 1)));
+                ts.push_back(gnum(g));
+                if (kinds & K_ELEM)
+                    ts.push_back(sin(gsym(g)));
+                e = add(ts);
+            } else
+                e = kinds ? gexpr(g, 3, kinds) : grat(g, 3);
+            vec_basic nums;
+            collect_numbers(*e, nums);
+            if (nums.empty() || is_a_Number(*e))
+                continue;
+            Pairs sigma;
+            int nn = 1 + (int)g.r.below(2);
+            for (int k = 0; k < nn; k++) {
+                B key = nums[g.r.below(nums.size())];
+                if (eq(*key, *zero))
+                    continue;
+                B img = g.r.coin(3, 5) ? B(symbol(k == 0 ? "a" : "b")) : image(g, (int)g.r.below(3), kinds & ~K_FSYM);
+                sigma.push_back(std::make_pair(key, img));
+            }
+            if (sigma.empty())
+                continue;
+            int ns = (int)g.r.below(3);
+            for (int k = 0; k < ns; k++)
+                sigma.push_back(std::make_pair(B(symbol(names[k])), image(g, (int)g.r.below(4), kinds & ~K_FSYM)));
+            emit_subs(g, MODES[g.r.below(4)], e, sigma, ns ? "numkey/with-symbols" : "numkey/alone");
         } catch (const std::exception &) {
             stat("gen_exception");
         }
